@@ -296,6 +296,11 @@ class Model:
                         for t in s2.targets:
                             if isinstance(t, ast.Name):
                                 ci.attrs[t.id] = s2.value
+                            elif isinstance(t, ast.Tuple) and isinstance(s2.value, ast.Tuple) \
+                                    and len(t.elts) == len(s2.value.elts):
+                                for te, ve in zip(t.elts, s2.value.elts):
+                                    if isinstance(te, ast.Name):
+                                        ci.attrs[te.id] = ve
                     elif isinstance(s2, ast.AnnAssign) and isinstance(s2.target, ast.Name) \
                             and s2.value is not None:
                         ci.attrs[s2.target.id] = s2.value
